@@ -2,8 +2,6 @@ package main
 
 import (
 	"bytes"
-	"syscall"
-	"time"
 	"context"
 	"encoding/json"
 	"fmt"
@@ -12,6 +10,8 @@ import (
 	"path/filepath"
 	"sort"
 	"strings"
+	"syscall"
+	"time"
 
 	"github.com/ddddddO/gtree"
 	"github.com/fatih/color"
@@ -23,15 +23,15 @@ import (
 // ---- C16: the CLI is a faithful front end with a truthful exit status
 
 type c16Case struct {
-	Kind    string   `json:"kind"`
-	Cmd     string   `json:"cmd"` // output | mkdir | verify
-	Doc     string   `json:"doc"`
-	DocName string   `json:"doc_name"`
-	Args    []string `json:"args"`   // flags after the subcommand (without --file / --target-dir)
-	Input   string   `json:"input"`  // stdin | file | dash | missing
-	Extra   string   `json:"extra"`  // "" | stray | unknown
-	Stdout  string   `json:"stdout"` // pipe | closed | full
-	Target  string   `json:"target"` // "" (cwd) | dir | missing
+	Kind    string          `json:"kind"`
+	Cmd     string          `json:"cmd"` // output | mkdir | verify
+	Doc     string          `json:"doc"`
+	DocName string          `json:"doc_name"`
+	Args    []string        `json:"args"`   // flags after the subcommand (without --file / --target-dir)
+	Input   string          `json:"input"`  // stdin | file | dash | missing
+	Extra   string          `json:"extra"`  // "" | stray | unknown
+	Stdout  string          `json:"stdout"` // pipe | closed | full
+	Target  string          `json:"target"` // "" (cwd) | dir | missing
 	Pre     map[string]byte `json:"pre"`
 }
 
